@@ -66,6 +66,20 @@ def frag_disk():
     return db.build([("FRAG", "BIN", 2, 0, 0x2000, 0x2002, [(3 * i + 1) % 256 for i in range(5000)])], order=list(range(67, -1, -1)))
 
 
+def blank_disk():
+    # a valid disk image that lists no files: never written (all $FF in the directory)
+    return db.build([])
+
+
+def killed_disk():
+    # a valid disk image whose only entry was deleted (first byte $00); its data is still in the granule
+    img = db.build([("GONE", "BIN", 2, 0, 0x2000, 0x2002, [7] * 40)])
+    img[db.DIR_OFFSET] = 0x00
+    for g in range(68):
+        img[db.FAT_OFFSET + g] = 0xFF
+    return img
+
+
 PRE = {
     "absent": None,
     "empty": [],
@@ -76,6 +90,8 @@ PRE = {
     "bigcas": big_tape,
     "bigcas-ff": big_tape_ff_at_dir,
     "dsk-frag": frag_disk,
+    "dsk-blank": blank_disk,
+    "dsk-killed": killed_disk,
 }
 
 
@@ -487,7 +503,7 @@ class CliFileUtil:
                                 "k": "existing", "src": src, "pre": pre, "append": ap})
             # the complete matrix of the property for file_util.py: every target kind x append x every kind of existing content
             for dst in ("cas", "dsk", "bin"):
-                for pre in ("empty", "cas", "dsk", "raw", "arbitrary", "bigcas-ff", "dsk-frag"):
+                for pre in ("empty", "cas", "dsk", "raw", "arbitrary", "bigcas-ff", "dsk-frag", "dsk-blank", "dsk-killed"):
                     for ap in (False, True):
                         out.append({"id": "fu/matrix/%s-to-%s/%s/%s" % (src, dst, pre, "append" if ap else "noappend"), "k": "matrix",
                                     "src": src, "dst": dst, "pre": pre, "append": ap})
